@@ -117,6 +117,24 @@ def check_topological_sort(username="master"):
         if not theory_cache[username][name]['visited']:
             dfs(name, tuple())
 
+def refresh_imports(filename, username="master"):
+    """Reread the import list of a theory whose file has changed since it was
+    cached (or that has not been read yet)."""
+    cache = theory_cache[username][filename]
+    timestamp = os.path.getmtime(user_file(filename, username))
+    if 'timestamp' in cache and timestamp == cache['timestamp']:
+        return
+
+    new_imports = load_json_data(filename, username)['imports']
+    if new_imports != cache['imports']:
+        old_imports = cache['imports']
+        cache['imports'] = new_imports
+        try:
+            check_topological_sort(username)
+        except TheoryException:
+            cache['imports'] = old_imports
+            raise
+
 def get_import_order(filenames, username="master"):
     """Obtain the order of loading theories for fulfilling
     the imports in the theory given by the list of filenames.
@@ -130,6 +148,8 @@ def get_import_order(filenames, username="master"):
         if name in depend_list:
             return
         else:
+            # The order must follow the import lists in the files as they are now
+            refresh_imports(name, username)
             for import_name in theory_cache[username][name]['imports']:
                 dfs(import_name)
             depend_list.append(name)
@@ -157,15 +177,7 @@ def load_theory_cache(filename, username="master"):
 
     # The file has changed (or is read for the first time). Its list of
     # imports may have changed as well.
-    new_imports = load_json_data(filename, username)['imports']
-    if new_imports != cache['imports']:
-        old_imports = cache['imports']
-        cache['imports'] = new_imports
-        try:
-            check_topological_sort(username)
-        except TheoryException:
-            cache['imports'] = old_imports
-            raise
+    refresh_imports(filename, username)
 
     # Load all required macros and methods for this file.
     # Make table for this later.
